@@ -419,6 +419,13 @@ void runHostile(const Plan& p)
 		Spec* s = pe.spec;
 		if (!s || s->handlerCalls == 0)
 			continue;
+		if (pe.cutAt != (size_t)-1 && pe.cutAt < pe.headLen)
+		{
+			// the request head (request line + headers + blank line) never arrived completely: this is not a request,
+			// the connection must be dropped without calling the application
+			sim::fail("handler_mismatch", "dispatched_incomplete_head", "a request whose head was cut after %zu of %zu bytes (peer closed) was handed to the application", pe.cutAt, pe.headLen);
+			continue;
+		}
 		if (pe.sentAll && pe.stallMs < 4000)
 		{
 			// a complete well-formed request (a peer that stalls beyond the library's 5-10 s waits is treated like one that
